@@ -1,10 +1,22 @@
-// Package sched: cooperative scheduler + stateless DFS explorer (prototype).
+// Package sched is a cooperative scheduler for the goroutines of an instrumented
+// package (see cmd/instr) together with a stateless, deviation-bounded DFS explorer
+// (explore.go). Every goroutine of an execution is a real goroutine, but exactly one
+// runs at a time: before each visible operation (mutex acquire, cond wait, channel
+// send/receive/select, atomic access, WaitGroup wait) the running goroutine records
+// the operation and yields; the scheduler computes the enabled set from shim state and
+// the next choice comes from the replayed prefix (else alternative 0).
+//
+// Alternatives at a point are in canonical order: those of the goroutine that just
+// yielded first, then the other goroutines in ascending id; a select contributes one
+// alternative per ready case in source order, so Go's random case choice is an
+// explored choice.
 package sched
 
 import (
-	"runtime/debug"
 	"fmt"
 	"runtime"
+	"runtime/debug"
+	"strings"
 	"sync"
 	"unsafe"
 )
@@ -15,12 +27,15 @@ const (
 	opResume opKind = iota // always enabled
 	opLock
 	opRLock
-	opCondWait // waiting for signal (never enabled until signaled -> becomes opLock)
+	opCondWait // not enabled until signalled (then becomes opLock)
 	opSend
 	opRecv
 	opSelect
 	opWGWait
+	opTimer // a timer goroutine waiting to fire: always enabled (firing time is a scheduler choice)
 )
+
+var kindName = [...]string{"resume", "lock", "rlock", "cond-wait", "send", "recv", "select", "wg-wait", "timer"}
 
 type selCase struct {
 	send bool
@@ -29,51 +44,83 @@ type selCase struct {
 	lenf func() int
 }
 
+// G is one scheduled goroutine.
 type G struct {
-	id     int
-	wake   chan struct{}
-	kind   opKind
-	mu     *Mutex
-	rw     *RWMutex
-	wg     *WaitGroup
-	cases  []selCase
-	hasDef bool
-	chosen int // granted case index (-1 default)
-	passive bool // granted as passive rendezvous party: must park after real op
-	done   bool
-	name   string
-	gid    int64
+	id      int
+	wake    chan struct{}
+	exited  chan struct{}
+	kind    opKind
+	mu      *Mutex
+	rw      *RWMutex
+	wg      *WaitGroup
+	cases   []selCase
+	hasDef  bool
+	chosen  int  // granted case index (-1 default)
+	passive bool // granted as passive rendezvous party: must park after its real op
+	done    bool
+	daemon  bool
+	name    string
+	gid     int64
+	pcs     [10]uintptr
+	npc     int
 }
 
+// Point is one scheduling decision of an execution.
 type Point struct {
 	Enabled int // number of alternatives
-	CurAlts int // the first CurAlts alternatives belong to the goroutine that just yielded
 	Choice  int
 }
 
+// Exec is the record of one execution.
 type Exec struct {
-	Points   []Point
-	Deadlock bool
-	Panic    any
-	Blocked  []string
+	Points     []Point
+	Deadlock   bool
+	Horizon    bool // point budget exhausted (execution cut off)
+	Panic      any
+	PanicStack string
+	Blocked    []string // unfinished goroutines and what they wait for, at deadlock
+	Goroutines int
+}
+
+// Choices returns the choice list of the execution (a replayable schedule).
+func (x *Exec) Choices() []int {
+	c := make([]int, len(x.Points))
+	for i, p := range x.Points {
+		c[i] = p.Choice
+	}
+	return c
+}
+
+// Deviations is the number of non-default choices.
+func (x *Exec) Deviations() int {
+	n := 0
+	for _, p := range x.Points {
+		if p.Choice != 0 {
+			n++
+		}
+	}
+	return n
 }
 
 type S struct {
-	gs      []*G
-	cur     *G
-	prefix  []int
-	x       *Exec
-	closed  map[unsafe.Pointer]bool
-	abort   bool
-	real    sync.WaitGroup
-	mainDone chan struct{}
-	Steps   int
+	gs        []*G
+	cur       *G
+	prefix    []int
+	x         *Exec
+	closed    map[unsafe.Pointer]bool
+	abort     bool
+	mainDone  chan struct{}
+	maxPoints int
 }
+
+// MaxPoints bounds the scheduling points of one execution (horizon); 0 = default.
+var MaxPoints = 20000
 
 var Trace bool
 var cur *S // the active scheduler (one execution at a time per process)
 
-func Active() *S { return cur }
+// Active reports whether code is running under the scheduler.
+func Active() bool { return cur != nil }
 
 type alt struct {
 	g       *G
@@ -82,16 +129,13 @@ type alt struct {
 	pcase   int
 }
 
-func (s *S) chClosed(ch unsafe.Pointer) bool { return s.closed[ch] }
-
-// canSend/canRecv on channel for goroutine g (excluding g itself as partner)
 func (s *S) partnerFor(g *G, c selCase) (*G, int, bool) {
 	if c.ch == nil {
 		return nil, 0, false
 	}
 	if c.send {
 		if s.closed[c.ch] {
-			return nil, 0, true // will panic
+			return nil, 0, true // the real send will panic, as in Go
 		}
 		if c.cap > 0 {
 			return nil, 0, c.lenf() < c.cap
@@ -133,7 +177,7 @@ func (s *S) partnerFor(g *G, c selCase) (*G, int, bool) {
 
 func (s *S) altsOf(g *G, out []alt) []alt {
 	switch g.kind {
-	case opResume:
+	case opResume, opTimer:
 		out = append(out, alt{g: g})
 	case opLock:
 		if g.mu != nil && !g.mu.locked {
@@ -148,7 +192,7 @@ func (s *S) altsOf(g *G, out []alt) []alt {
 		}
 	case opCondWait:
 	case opWGWait:
-		if g.wg.n == 0 {
+		if g.wg.n <= 0 {
 			out = append(out, alt{g: g})
 		}
 	case opSend, opRecv, opSelect:
@@ -169,10 +213,8 @@ func (s *S) altsOf(g *G, out []alt) []alt {
 // pick chooses the next alternative; from is the goroutine that just yielded (may be done).
 func (s *S) pick(from *G) (alt, bool) {
 	var alts []alt
-	curAlts := 0
 	if from != nil && !from.done {
 		alts = s.altsOf(from, alts)
-		curAlts = len(alts)
 	}
 	for _, g := range s.gs {
 		if g == from || g.done {
@@ -188,17 +230,22 @@ func (s *S) pick(from *G) (alt, bool) {
 	if i < len(s.prefix) {
 		c = s.prefix[i]
 		if c >= len(alts) {
-			panic(fmt.Sprintf("sched: replay divergence at point %d: choice %d of %d", i, c, len(alts)))
+			panic(fmt.Sprintf("sched: replay divergence at point %d: choice %d of %d alternatives", i, c, len(alts)))
 		}
 	}
-	// curFirst refinement: alternatives of `from` beyond the first are not preemptions either
-	s.x.Points = append(s.x.Points, Point{Enabled: len(alts), CurAlts: curAlts, Choice: c})
+	s.x.Points = append(s.x.Points, Point{Enabled: len(alts), Choice: c})
 	return alts[c], true
 }
 
 func (s *S) grant(a alt) {
 	g := a.g
-	if Trace { pid := -1; if a.partner != nil { pid = a.partner.id }; println("grant g", g.id, "kind", g.kind, "case", a.caseIdx, "partner", pid, "point", len(s.x.Points)) }
+	if Trace {
+		pid := -1
+		if a.partner != nil {
+			pid = a.partner.id
+		}
+		println("grant g", g.id, g.name, kindName[g.kind], "case", a.caseIdx, "partner", pid, "point", len(s.x.Points))
+	}
 	g.chosen = a.caseIdx
 	switch g.kind {
 	case opLock:
@@ -229,7 +276,12 @@ func (s *S) yield(g *G) {
 	if s.abort {
 		runtime.Goexit()
 	}
-	s.Steps++
+	g.npc = runtime.Callers(2, g.pcs[:])
+	if len(s.x.Points) >= s.maxPoints {
+		s.x.Horizon = true
+		s.finish()
+		runtime.Goexit()
+	}
 	a, ok := s.pick(g)
 	if !ok {
 		s.deadlock()
@@ -246,9 +298,33 @@ func (s *S) yield(g *G) {
 	}
 }
 
+func (g *G) where() string {
+	if g.npc == 0 {
+		return ""
+	}
+	fr := runtime.CallersFrames(g.pcs[:g.npc])
+	var out []string
+	for {
+		f, more := fr.Next()
+		if f.Function != "" && !strings.Contains(f.File, "/verif/sched/") && !strings.Contains(f.File, "/verif/vsync/") && !strings.Contains(f.File, "/verif/vatomic/") {
+			fn := f.Function
+			if i := strings.LastIndex(fn, "/"); i >= 0 {
+				fn = fn[i+1:]
+			}
+			out = append(out, fmt.Sprintf("%s:%d", fn, f.Line))
+			if len(out) >= 3 {
+				break
+			}
+		}
+		if !more {
+			break
+		}
+	}
+	return strings.Join(out, " < ")
+}
+
 // settle is called after a granted real channel op; passive parties park.
 func (s *S) settle(g *G) {
-	if Trace { println("settle g", g.id, "passive", g.passive) }
 	if g.passive {
 		g.passive = false
 		<-g.wake
@@ -262,7 +338,11 @@ func (s *S) deadlock() {
 	s.x.Deadlock = true
 	for _, g := range s.gs {
 		if !g.done {
-			s.x.Blocked = append(s.x.Blocked, fmt.Sprintf("g%d(%s) kind=%d", g.id, g.name, g.kind))
+			d := fmt.Sprintf("g%d(%s) waits: %s", g.id, g.name, kindName[g.kind])
+			if w := g.where(); w != "" {
+				d += " at " + w
+			}
+			s.x.Blocked = append(s.x.Blocked, d)
 		}
 	}
 	s.finish()
@@ -278,7 +358,6 @@ func (s *S) finish() {
 
 func (s *S) exit(g *G) {
 	g.done = true
-	if Trace { println("exit g", g.id, "abort", s.abort) }
 	if s.abort {
 		return
 	}
@@ -297,15 +376,19 @@ func (s *S) exit(g *G) {
 }
 
 func (s *S) spawn(name string, f func()) *G {
-	g := &G{id: len(s.gs), wake: make(chan struct{}, 1), kind: opResume, name: name}
+	g := &G{id: len(s.gs), wake: make(chan struct{}, 1), exited: make(chan struct{}), kind: opResume, name: name}
 	s.gs = append(s.gs, g)
-	s.real.Add(1)
 	go func() {
-		defer s.real.Done()
+		defer close(g.exited)
 		defer func() {
 			if r := recover(); r != nil {
+				if s.abort {
+					g.done = true
+					return // panics during teardown are not part of the execution
+				}
 				if s.x.Panic == nil {
 					s.x.Panic = r
+					s.x.PanicStack = string(debug.Stack())
 				}
 				g.done = true
 				s.finish()
@@ -316,6 +399,7 @@ func (s *S) spawn(name string, f func()) *G {
 		g.gid = goid()
 		<-g.wake
 		if s.abort {
+			g.done = true
 			return
 		}
 		f()
@@ -330,7 +414,23 @@ func Go(f func()) {
 		go f()
 		return
 	}
+	if s.abort {
+		return
+	}
 	s.spawn("", f)
+}
+
+// GoNamed is Go with a name that shows up in deadlock reports.
+func GoNamed(name string, f func()) {
+	s := cur
+	if s == nil {
+		go f()
+		return
+	}
+	if s.abort {
+		return
+	}
+	s.spawn(name, f)
 }
 
 func goid() int64 {
@@ -348,29 +448,36 @@ func goid() int64 {
 
 func (s *S) me() *G {
 	if s.cur.gid != goid() {
-		println("ME MISMATCH cur g", s.cur.id)
 		debug.PrintStack()
-		panic("me mismatch")
+		panic(fmt.Sprintf("sched: a goroutine that is not scheduled (current is g%d) called a shim operation", s.cur.id))
 	}
 	return s.cur
 }
 
-// Run executes body under the scheduler following prefix, returns the execution record.
+// Run executes body under the scheduler following prefix and returns the execution
+// record. The execution ends when body returns (goroutine 0), at deadlock, at a panic
+// in any goroutine, or at the point horizon; all other goroutines are then torn down
+// one at a time in abort mode (every shim operation exits the goroutine).
 func Run(prefix []int, body func()) *Exec {
-	s := &S{prefix: prefix, x: &Exec{}, closed: map[unsafe.Pointer]bool{}, mainDone: make(chan struct{})}
+	s := &S{prefix: prefix, x: &Exec{}, closed: map[unsafe.Pointer]bool{}, mainDone: make(chan struct{}), maxPoints: MaxPoints}
+	if cur != nil {
+		panic("sched: nested Run")
+	}
 	cur = s
 	g0 := s.spawn("main", body)
 	s.cur = g0
 	g0.wake <- struct{}{}
 	<-s.mainDone
-	// abort everyone parked
-	for _, g := range s.gs {
+	// tear down: goroutines are woken one at a time so that their deferred calls never run concurrently
+	for i := 0; i < len(s.gs); i++ {
+		g := s.gs[i]
 		select {
 		case g.wake <- struct{}{}:
 		default:
 		}
+		<-g.exited
 	}
-	s.real.Wait()
+	s.x.Goroutines = len(s.gs)
 	cur = nil
 	return s.x
 }
@@ -381,12 +488,12 @@ func chanID[T any](ch <-chan T) unsafe.Pointer { return *(*unsafe.Pointer)(unsaf
 
 func Send[T any](ch chan<- T, v T) {
 	s := cur
-	if s == nil || s.abort {
-		if s != nil {
-			runtime.Goexit()
-		}
+	if s == nil {
 		ch <- v
 		return
+	}
+	if s.abort {
+		runtime.Goexit()
 	}
 	g := s.me()
 	g.kind = opSend
@@ -420,6 +527,9 @@ func Recv[T any](ch <-chan T) T { v, _ := Recv2(ch); return v }
 
 func Close[T any](ch chan<- T) {
 	if s := cur; s != nil {
+		if s.abort {
+			runtime.Goexit()
+		}
 		s.closed[*(*unsafe.Pointer)(unsafe.Pointer(&ch))] = true
 	}
 	close(ch)
@@ -438,7 +548,7 @@ func SendCase[T any](ch chan<- T) Case {
 func Select(hasDefault bool, cases ...Case) (*G, int) {
 	s := cur
 	if s == nil {
-		panic("sched.Select outside scheduler not supported in prototype")
+		panic("sched.Select outside the scheduler")
 	}
 	if s.abort {
 		runtime.Goexit()
@@ -461,17 +571,21 @@ func (g *G) Settle() {
 	}
 }
 
-// ---- sync shims (state lives here, methods in vsync call these) ----
+// ---- sync shims (state lives here; verif/vsync aliases these types) ----
 
 type Mutex struct{ locked bool }
 
 func (m *Mutex) Lock() {
 	s := cur
 	if s == nil {
-		panic("vsync.Mutex outside scheduler")
+		if m.locked {
+			panic("vsync.Mutex contended outside the scheduler")
+		}
+		m.locked = true
+		return
 	}
 	if s.abort {
-		return
+		runtime.Goexit()
 	}
 	g := s.me()
 	g.kind, g.mu = opLock, m
@@ -482,8 +596,6 @@ func (m *Mutex) Unlock() {
 		return
 	}
 	if !m.locked {
-		println("UNLOCK-UNLOCKED by g", cur.cur.id, "abort", cur.abort)
-		debug.PrintStack()
 		panic("sync: unlock of unlocked mutex")
 	}
 	m.locked = false
@@ -504,8 +616,12 @@ type RWMutex struct {
 
 func (m *RWMutex) Lock() {
 	s := cur
-	if s.abort {
+	if s == nil {
+		m.w = true
 		return
+	}
+	if s.abort {
+		runtime.Goexit()
 	}
 	g := s.me()
 	g.kind, g.rw = opLock, m
@@ -513,22 +629,26 @@ func (m *RWMutex) Lock() {
 	s.yield(g)
 }
 func (m *RWMutex) Unlock() {
-	if cur.abort {
+	if s := cur; s != nil && s.abort {
 		return
 	}
 	m.w = false
 }
 func (m *RWMutex) RLock() {
 	s := cur
-	if s.abort {
+	if s == nil {
+		m.r++
 		return
+	}
+	if s.abort {
+		runtime.Goexit()
 	}
 	g := s.me()
 	g.kind, g.rw = opRLock, m
 	s.yield(g)
 }
 func (m *RWMutex) RUnlock() {
-	if cur.abort {
+	if s := cur; s != nil && s.abort {
 		return
 	}
 	m.r--
@@ -548,6 +668,9 @@ func NewCond(l Locker) *Cond { return &Cond{L: l} }
 
 func (c *Cond) Wait() {
 	s := cur
+	if s == nil {
+		panic("vsync.Cond.Wait outside the scheduler")
+	}
 	if s.abort {
 		runtime.Goexit()
 	}
@@ -556,7 +679,7 @@ func (c *Cond) Wait() {
 	c.waiters = append(c.waiters, g)
 	g.kind = opCondWait
 	s.yield(g)
-	// woken: kind was set to opLock by Signal, and lock granted by scheduler
+	// woken: Signal/Broadcast turned the wait into a lock request, granted by the scheduler
 }
 func (c *Cond) wakeOne(g *G) {
 	switch l := c.L.(type) {
@@ -570,7 +693,7 @@ func (c *Cond) wakeOne(g *G) {
 	}
 }
 func (c *Cond) Signal() {
-	if cur.abort {
+	if s := cur; s != nil && s.abort {
 		return
 	}
 	if len(c.waiters) > 0 {
@@ -579,7 +702,7 @@ func (c *Cond) Signal() {
 	}
 }
 func (c *Cond) Broadcast() {
-	if cur.abort {
+	if s := cur; s != nil && s.abort {
 		return
 	}
 	for _, g := range c.waiters {
@@ -592,10 +715,17 @@ type WaitGroup struct{ n int }
 
 func (w *WaitGroup) Add(d int) { w.n += d }
 func (w *WaitGroup) Done()     { w.n-- }
+func (w *WaitGroup) Go(f func()) {
+	w.Add(1)
+	Go(func() { defer w.Done(); f() })
+}
 func (w *WaitGroup) Wait() {
 	s := cur
+	if s == nil {
+		panic("vsync.WaitGroup.Wait outside the scheduler")
+	}
 	if s.abort {
-		return
+		runtime.Goexit()
 	}
 	g := s.me()
 	g.kind, g.wg = opWGWait, w
@@ -619,16 +749,18 @@ func (o *Once) Do(f func()) {
 	}
 }
 
-// Point: plain scheduling point (atomics).
+// Yield is a plain scheduling point (used before atomic accesses).
 func Yield() {
 	s := cur
 	if s == nil {
 		return
 	}
 	if s.abort {
-		return
+		runtime.Goexit()
 	}
 	g := s.me()
 	g.kind = opResume
 	s.yield(g)
 }
+
+var _ sync.Locker = (*Mutex)(nil)
